@@ -4,7 +4,9 @@ pub mod c03;
 pub mod c04;
 pub mod c05;
 pub mod c06;
+pub mod c07;
 pub mod c08;
+pub mod c09;
 pub mod c11;
 pub mod c14;
 
@@ -18,7 +20,9 @@ pub fn dispatch(cfg: &Cfg) -> i32 {
         "C04" => c04::run(cfg),
         "C05" => c05::run(cfg),
         "C06" => c06::run(cfg),
+        "C07" => c07::run(cfg),
         "C08" => c08::run(cfg),
+        "C09" => c09::run(cfg),
         "C11" => c11::run(cfg),
         "C14" => c14::run(cfg),
         other => {
